@@ -108,12 +108,27 @@ def pats(U, t, depth, allow_or=True):
             if all(c == ("w",) for c in combo) and False:
                 continue
             ctor.append(("s", list(combo)))
+        if k == "struct":
+            # object patterns that mention a field twice (`{ a as A, a as B(_), b as _ }`): the lowering tests both
+            # sub-patterns, so the analysis must either refuse the pattern or treat it as their conjunction
+            for fi, ft in enumerate(fields):
+                if kind(U, ft) != "enum":
+                    continue
+                heads = [q for q in pats(U, ft, 1, allow_or=False) if q[0] == "c"]
+                for a, b in list(itertools.permutations(heads, 2))[:4] + [(h, ("w",)) for h in heads[:2]]:
+                    items = [(fi, a), (fi, b)] + [(j, ("w",)) for j in range(len(fields)) if j != fi]
+                    ctor.append(("sd", items))
+                    ctor.append(("sd", items[2:] + items[:2]))
     out += ctor
     if allow_or and k == "enum":
         # or-patterns between two depth-1 constructor patterns of the same type
         flat = [c for c in ctor if all(a == ("w",) for a in c[2])]
         for a, b in itertools.combinations(flat, 2):
             out.append(("o", [a, b]))
+        # an alternative that is a wildcard makes the whole or-pattern irrefutable, wherever it stands
+        for a in flat[:2]:
+            out.append(("o", [a, ("w",)]))
+            out.append(("o", [("w",), a]))
         # alternatives that share their head constructor and differ in the payload (`Some(Red) | Some(Green)`),
         # alone and next to an alternative with another constructor; a bounded number per variant
         for v, args in U["enums"][t][1]:
@@ -140,6 +155,9 @@ def show(U, t, p, fresh):
         if not args:
             return p[1]
         return "%s(%s)" % (p[1], ", ".join(show(U, a, q, fresh) for a, q in zip(args, p[2])))
+    if p[0] == "sd":
+        fl = U["structs"][t][1]
+        return "{ " + ", ".join("%s as %s" % (fl[fi][0], show(U, fl[fi][1], q, fresh)) for fi, q in p[1]) + " }"
     if k == "struct":
         parts = []
         for (fn, ft), q in zip(U["structs"][t][1], p[1]):
@@ -161,6 +179,16 @@ def with_vars(p, counter):
     if p[0] == "s":
         return ("s", [with_vars(q, counter) for q in p[1]])
     return p
+
+
+def has_dup(p):
+    if p[0] == "sd":
+        return True
+    if p[0] == "c":
+        return any(has_dup(q) for q in p[2])
+    if p[0] in ("s", "o"):
+        return any(has_dup(q) for q in p[1])
+    return False
 
 
 # ----------------------------------------------------------------------------------------
@@ -208,6 +236,8 @@ class Oracle:
             return z3.And(*conj)
         k = kind(U, t)
         fields = [ft for _, ft in U["structs"][t][1]] if k == "struct" else U["tuples"][t][1]
+        if p[0] == "sd":
+            return z3.And(*[self.matches(fields[fi], q, s.accessor(0, fi)(v)) for fi, q in p[1]])
         return z3.And(*[self.matches(a, q, s.accessor(0, i)(v)) for i, (a, q) in enumerate(zip(fields, p[1]))])
 
     def check(self, *assertions):
@@ -303,9 +333,10 @@ def build_cases(U, tier, rng):
         if len(P) > 40:
             # keep the enumeration finite and stated: all depth-1 patterns, and depth-2 patterns whose
             # or-free arguments are taken from the first 40 in enumeration order plus a seeded sample
-            extra = P[40:]
+            extra = [q for q in P[40:] if not has_dup(q)]
+            dups = [q for q in P[40:] if has_dup(q)]
             rng.shuffle(extra)
-            P = P[:40] + extra[:20 if tier == "quick" else 80]
+            P = P[:40] + dups[:24] + extra[:20 if tier == "quick" else 80]
         for p in P:
             cases.append(("match", t, [p]))
             cases.append(("iflet", t, [p]))
@@ -405,6 +436,11 @@ def run(res, tier, sc, drv):
                                "source": [l for l in text.split("\n") if l.startswith("  function f%d(" % i)][0].strip(),
                                "decls": HEADER + U["decls"], "checker_messages": msgs,
                                "oracle": "some value escapes every pattern" if escapes else "every value is matched"}
+                dup = any(has_dup(q) for q in ps)
+                if dup and other:
+                    # a repeated field may be refused outright (name already bound); nothing else to compare then
+                    stats["duplicate_field_refused"] = stats.get("duplicate_field_refused", 0) + 1
+                    continue
                 if form in ("match", "let"):
                     rejected = bool(nonexh) or bool(other)
                     if rejected and not escapes:
